@@ -34,6 +34,27 @@ def S0(a: AST) -> str:
     return _CTX_RE.sub('', ast.dump(a))
 
 
+def S_fblank(tree: AST) -> str:
+    """Structure with the literal parts of f-strings blanked: in a self-documenting field `{expr = }` the expression text, whitespace included, is
+    also the value of the preceding literal part, so an edit of the expression changes that Constant too."""
+
+    saved = []
+
+    try:
+        for n in ast.walk(tree):
+            if isinstance(n, ast.JoinedStr):
+                for v in n.values:
+                    if isinstance(v, ast.Constant):
+                        saved.append((v, v.value))
+                        v.value = ''
+
+        return S(tree)
+
+    finally:
+        for v, val in saved:
+            v.value = val
+
+
 def first_diff(x: str, y: str, ctx: int = 60) -> str:
     n = min(len(x), len(y))
     i = next((i for i in range(n) if x[i] != y[i]), n)
@@ -112,12 +133,13 @@ def _open_seq_extent(ref: AST, src: str) -> AST:
     extent of its own tokens (first to last significant token, a trailing comma included)."""
 
     if isinstance(ref, (ast.Tuple, ast.MatchSequence)) and ref.lineno < 1:
-        toks = [t for t in tokenize.generate_tokens(io.StringIO(src).readline)
-                if t.type not in _SKIP_TOK and t.type != tokenize.COMMENT]
+        # tokenised inside parentheses (no INDENT / DEDENT bookkeeping for continuation lines that step back), rows shifted back by one
+        toks = [t for t in tokenize.generate_tokens(io.StringIO('(\n' + src + '\n)').readline)
+                if t.type not in _SKIP_TOK and t.type != tokenize.COMMENT][1:-1]
 
         if toks:
             lines = src.split('\n')
-            (sl, sc), (el, ec) = toks[0].start, toks[-1].end
+            (sl, sc), (el, ec) = (toks[0].start[0] - 1, toks[0].start[1]), (toks[-1].end[0] - 1, toks[-1].end[1])
             ref.lineno, ref.col_offset = sl, c2b(lines[sl - 1], sc)
             ref.end_lineno, ref.end_col_offset = el, c2b(lines[el - 1], ec)
 
